@@ -168,23 +168,7 @@ func c08(e *Env) {
 			ob2b.OK("-", fmt.Sprintf("%d nodes examined", len(sp.g.Nodes)))
 		}
 	}
-	ob2c := r.Ob("R2", "(*Process).Run:non-stream⇒head-only", "with the streaming flag false, every reachable OutPort.Send in Process.Run forwards an output of the queue head")
-	res := g.Run(core.Scenario{Start: g.Entry, FieldLoad: e.assumeStream(false)})
-	nS := 0
-	for _, n := range g.Nodes {
-		if _, ok := isPortSend(n); !ok || n.Kind == core.KAfter {
-			continue
-		}
-		if res.Reaches(func(m *core.Node) bool { return m == n }) == nil {
-			continue // only for streaming outputs
-		}
-		nS++
-		ip := e.xargSym(n, 1).String()
-		ob2c.Check(strings.Contains(ip, "[0].OutIPs"), g.Where(n), "forwards "+trunc(ip, 120), "a non-streaming output that is not the queue head's is sent: "+trunc(ip, 200)+" (it overtakes the outputs of earlier tasks still running)")
-	}
-	if nS == 0 {
-		ob2c.Fail(core.FuncName(a.procRun), "no OutPort.Send reachable for non-streaming outputs")
-	}
+	e.headOnlyRule("R2")
 	// ---- R3 sequential senders
 	for _, m := range []struct{ typ, meth string }{{"InPort", "Send"}, {"InParamPort", "Send"}, {"OutPort", "Send"}, {"OutParamPort", "Send"}} {
 		ob := r.Ob("R3", "(*"+m.typ+")."+m.meth+":plain-send", "the port send is a plain sequential blocking send: no goroutine, no select, exactly one channel send per remote")
@@ -231,6 +215,38 @@ func c08(e *Env) {
 	}
 	if ob3.Sites == 0 {
 		ob3.Unknown("-", "task-creation goroutine not found")
+	}
+}
+
+// headOnlyRule (C08.R2, shared as C04.R9): with the streaming flag false, every OutPort.Send in Process.Run
+// forwards an output of the queue head - outputs leave in input order, so consumers with several in-ports pair
+// the items that belong together and the produced files do not depend on timing.
+func (e *Env) headOnlyRule(rule string) {
+	r := e.R
+	a := e.anchors()
+	if !a.ok() {
+		return
+	}
+	g := e.XG(a.procRun)
+	if g == nil {
+		return
+	}
+	ob2c := r.Ob(rule, "(*Process).Run:non-stream⇒head-only", "with the streaming flag false, every reachable OutPort.Send in Process.Run forwards an output of the queue head")
+	res := g.Run(core.Scenario{Start: g.Entry, FieldLoad: e.assumeStream(false)})
+	nS := 0
+	for _, n := range g.Nodes {
+		if _, ok := isPortSend(n); !ok || n.Kind == core.KAfter {
+			continue
+		}
+		if res.Reaches(func(m *core.Node) bool { return m == n }) == nil {
+			continue // only for streaming outputs
+		}
+		nS++
+		ip := e.xargSym(n, 1).String()
+		ob2c.Check(strings.Contains(ip, "[0].OutIPs"), g.Where(n), "forwards "+trunc(ip, 120), "a non-streaming output that is not the queue head's is sent: "+trunc(ip, 200)+" (it overtakes the outputs of earlier tasks still running)")
+	}
+	if nS == 0 {
+		ob2c.Fail(core.FuncName(a.procRun), "no OutPort.Send reachable for non-streaming outputs")
 	}
 }
 
